@@ -44,7 +44,7 @@ class G:
         if x < 0.68:
             return "%d.%d" % (r.randint(0, 9), r.randint(1, 99))
         if x < 0.8:
-            return "'" + r.choice(["a", "it''s", "x y", "", "NULL", "a;b", "-- c"]) + "'"
+            return "'" + r.choice(["a", "it''s", "x y", "", "NULL", "a;b", "-- c", "''q''", "''", "''''", "q''"]) + "'"
         if x < 0.85:
             return r.choice(["true", "false"])
         if x < 0.92:
@@ -94,6 +94,10 @@ class G:
         if x < 0.88:
             return "%s between %s and %s" % (self.atom(), self.atom(), self.atom())
         if x < 0.92:
+            if r.random() < 0.3:
+                # an explicit unary minus over a numeric literal: only a sign written directly before the number folds into it
+                n = r.randint(1, 99)
+                return r.choice(["-(%d)", "- -%d", "-(-%d)", "- (%d.5)", "-(%d) * 2", "c0 - -%d"]) % n
             return r.choice(["not ", "- ", "~ "]) + self.expr(d - 1)
         if x < 0.95:
             return "(%s)" % self.expr(d - 1)
